@@ -355,9 +355,12 @@ class C23(Check):
         if len(out_a) >= 200 and ('define-fun' in out_a or '(proof' in out_a or re.search(r'^\([a-z0-9 ]+\)$', out_a, re.M)):
             res['nontrivial'] = True
         res['key'] = stable_hash(case['script'])
-        if outs[0][2]:
-            # a crash is C18's finding; reproducibility is judged on what is comparable
-            bump(res, 'died:' + outs[0][2][0])
+        if any(o[2] for o in outs):
+            # a crash is C18's finding, and where (or whether) a memory error strikes legitimately depends on the layout:
+            # reproducibility is judged on runs that all terminated normally
+            bump(res, 'died:' + next(o[2][0] for o in outs if o[2]))
+            res['discarded'] = 'a-variant-died'
+            return res
         names = ['layout', 'aslr', 'clock']
         for k, name in zip((1, 2, 3), names):
             if (outs[k][0], outs[k][1], bool(outs[k][2])) != (outs[0][0], outs[0][1], bool(outs[0][2])):
@@ -542,7 +545,7 @@ class C18(Check):
                 res['discarded'] = 'cpu-limit'
                 return res
             frame = self.top_frame(stderr, resp)
-            res['violations'].append({'cls': 'crash', 'sig': {'kind': kind, 'where': frame}, 'detail': {'death': str(d)[:300], 'stderr': stderr[-1500:], 'stdout': out[-300:]}})
+            res['violations'].append({'cls': 'crash', 'sig': dict({'kind': kind, 'where': frame}, **self.cause_features(text)), 'detail': {'death': str(d)[:300], 'stderr': stderr[-1500:], 'stdout': out[-300:]}})
             return res
         if 'runtime error:' in stderr or 'AddressSanitizer' in stderr:
             res['violations'].append({'cls': 'crash', 'sig': {'kind': 'SANITIZER', 'where': self.top_frame(stderr, resp)}, 'detail': {'stderr': stderr[-1500:]}})
@@ -558,6 +561,19 @@ class C18(Check):
         if (problem or printed_diag) and rc == 0 and not (problem and self.exit_before_problem(text) and not printed_diag):
             res['violations'].append({'cls': 'problem-with-zero-exit', 'sig': {'mode': case['mode'], 'diag': self.diag_kind(out)}, 'detail': {'stdout': out[-400:], 'exit': rc}})
         return res
+
+    @staticmethod
+    def cause_features(text):
+        """Cause attributes of a crash read off the delivered script: which search engine it selects and whether it ever pushes
+        an assertion level (the lookahead engines are known to stop with an incomplete assignment after push/pop)."""
+        eng = 'default'
+        if re.search(r'\(set-option\s+:ghost-vars\s+true', text):
+            eng = 'ghost'
+        elif re.search(r'\(set-option\s+:pure-lookahead\s+true', text):
+            eng = 'lookahead'
+        elif re.search(r'\(set-option\s+:picky\s+true', text):
+            eng = 'picky'
+        return {'engine': eng, 'pushed': bool(re.search(r'\(push\b', text))}
 
     @staticmethod
     def exit_before_problem(text):
